@@ -810,7 +810,8 @@ class MapfileToDict:
 class Canonize(Transformer_InPlace):
     @v_args(tree=True)
     def symbolset(self, tree):
-        composite_type = Tree("composite_type", [Token("symbolset", "symbolset")])
+        # the SYMBOLSET keyword itself (kept by "!start"), so that its position is recorded
+        composite_type = Tree("composite_type", [tree.children.pop(0)])
 
         tree.data = "composite"
         tree.children.insert(0, composite_type)
